@@ -34,7 +34,7 @@ var corpusPolicies = []gen.Policy{{FullParens: false, StmtSep: "\n"}, {FullParen
 var adjStmts = []string{
 	"a", "1", ".5", `"s"`, "f(1)", "a[1]", "a.k", "-a", "!a", "++a", "+a", "^a", "a++", "a + b", "a = 1", "[1]", "{1:2}", "x => x", "(x, y) => x", "() => 1",
 	"func(x) { x }", "func g(x) { x }", "if a { 1 }", "if a { 1 } else { 2 }", "for a { 1 }", "return", "return 1", "break", "(a)", "(a + b) * c", "len(a)",
-	"true", "1e5", "0x1", "e5", "x1", "`r`", "a = [1]", "a = {1:2}", "a = func() { 1 }", "quote(a)",
+	"true", "1e5", "0x1", "e5", "x1", "`r`", "a = [1]", "a = {1:2}", "a = func() { 1 }", "quote(a)", "1.", "0", "0.5", "9", "b1", "_",
 }
 
 var corpusLiterals = func() []string {
@@ -185,6 +185,31 @@ func forEachCorpusText(c *core.Ctx, opt corpusOpt, f func(family, text string) b
 		emit("cmt", t)
 	}
 	bounds = append(bounds, "comments (line, block, multi-line block) at every boundary of every <=3-statement program over 6 statements, own-line and same-line, top level and in a function body")
+	// every construct as parent x every compound construct as child x every child position (two-level trees),
+	// children written in parentheses
+	{
+		children := []string{"x => 1", "(x, y) => 1", "func() { 1 }", "if a { 1 }", "if a { 1 } else { 2 }", "for a { 1 }", "-a", "!a", "++a", "a++", "f(1)", "a[1]", "a.k", "a[1:2]", "a[1:]",
+			"[1, 2]", "{1:2}", "len(a)", "quote(a)", "macro(x) { 1 }", "1", "a", `"s"`}
+		for _, op := range gen.AllInfix {
+			children = append(children, "a "+op+" b")
+		}
+		parents := []string{"%s", "-%s", "!%s", "++%s", "%s(1)", "f(%s)", "f(1, %s)", "%s[1]", "a[%s]", "a[%s:2]", "a[1:%s]", "a[%s:]", "%s.k", "a.%s", "[%s]", "[1, %s]", "{%s:1}", "{1:%s}", "{1:2, %s:3}",
+			"if %s { 1 }", "if a { %s }", "if a { 1 } else { %s }", "for %s { 1 }", "for a { %s }", "return %s", "x => %s", "(x, y) => %s", "func() { %s }", "func f(a) { %s; 1 }", "len(%s)", "println(1, %s)", "quote(%s)", "unquote(%s)",
+			"macro(x) { %s }", "x = %s", "x := %s", "a = b = %s", "%s; 1", "1; %s", "del(%s)", "catch(%s)", "error(%s)"}
+		for _, op := range gen.AllInfix {
+			parents = append(parents, "%s "+op+" c", "c "+op+" %s")
+		}
+		for _, par := range parents {
+			for _, ch := range children {
+				for _, wrapped := range []string{"(" + ch + ")", ch} {
+					if !emit("two-level", strings.ReplaceAll(par, "%s", wrapped)) {
+						return false, bounds
+					}
+				}
+			}
+		}
+		bounds = append(bounds, fmt.Sprintf("two-level trees: %d parent positions x %d child constructs (parenthesised and bare)", len(parents), len(children)))
+	}
 	// G-syn single statements
 	for size := 1; size <= opt.fullSize; size++ {
 		ok := full.EnumStmt(size, func(n *gen.N) bool {
